@@ -34,7 +34,11 @@ RULE = ("left documents x merge paths x right documents x policies.  Small part:
         "stood there and the right document; a created path holds the right document; outcome class (document, merge error, "
         "YAML Path error) equals the model's, any other exception is a violation.  Correspondence: Merger.data equals the "
         "Lean mergeAt exactly.  A sample runs through the yaml-merge main() with real files: an output file exists iff the "
-        "merge succeeded.  Integer keys: left documents in which mapping keys are integers (0 1 2 22 443 8080 -1), merge paths "
+        "merge succeeded; 600 more runs use a MULTI-DOCUMENT left file (2-4 documents) in each --multi-doc-mode (condense_all, "
+        "merge_across, matrix_merge) at a merge path that matches nothing and cannot be created (a Scalar in the way, a search that "
+        "matches nothing, an index into a Scalar) in exactly one document - the first, a middle or the last one - (also none, two, "
+        "all): when the library's own Merger refuses one of the merges the run consists of, the tool must exit non-zero and write no "
+        "output file; when all succeed, exit 0 and the file.  Integer keys: left documents in which mapping keys are integers (0 1 2 22 443 8080 -1), merge paths "
         "written with the digits that end at / pass through such a key (the node named is the single target), right documents "
         "of every root kind; judged like every other case (FRAME incl. the key lists of the containers above the target — no new "
         "sibling key —, TARGETS, outcome class).  Several parents, missing final key: a list or mapping of 2-5 records (some "
@@ -1079,6 +1083,176 @@ def cli_checks(chk, cases):
     chk.count("cli:failed-merges", n_fail)
     chk.count("cli:successful-merges", n_ok)
 
+# --------------------------------------------------------------------------- yaml-merge, multi-document files
+
+MULTIDOC_MODES = ["condense_all", "merge_across", "matrix_merge"]
+
+# (merge path, documents that can take a merge there, documents in which the path matches nothing and cannot be created)
+_S = lambda v: {"k": "str", "v": v}            # noqa: E731
+_I = lambda v: {"k": "int", "v": str(v)}       # noqa: E731
+_M = lambda *e: {"k": "map", "e": [list(x) for x in e]}    # noqa: E731
+_L = lambda *i: {"k": "seq", "i": list(i)}     # noqa: E731
+MULTIDOC_SHAPES = [
+    (["/cfg/sub", "cfg.sub"],
+     [_M(("cfg", _M(("sub", _M(("a", _I(1))))))), _M(("cfg", _M())), _M(("other", _I(1))), _M(("cfg", _M(("sub", _M()))), ("x", _S("y")))],
+     [_M(("cfg", _S("just-a-string"))), _M(("cfg", _I(5)), ("x", _I(1))), _M(("cfg", _M(("sub", _S("text")))))]),
+    (["/a/b/c", "a.b.c"],
+     [_M(("a", _M(("b", _M(("c", _M(("k", _I(1))))))))), _M(("a", _M(("b", _M())))), _M(("z", _L(_I(1))))],
+     [_M(("a", _M(("b", _S("leaf"))))), _M(("a", _S("leaf"))), _M(("a", _M(("b", _M(("c", _I(7)))))))]),
+    (["/svc[name=x]/opts", "svc[name=x].opts"],
+     [_M(("svc", _L(_M(("name", _S("x")), ("opts", _M(("p", _I(1))))), _M(("name", _S("y")))))), _M(("svc", _L(_M(("name", _S("x"))))))],
+     [_M(("svc", _L(_M(("name", _S("y")))))), _M(("svc", _L())), _M(("svc", _M(("name", _S("q")))))]),
+    (["/items[0]/tags", "items[0].tags"],
+     [_M(("items", _L(_M(("tags", _M(("t", _I(1)))))))), _M(("items", _L(_M(("n", _I(1))))))],
+     [_M(("items", _L(_S("scalar")))), _M(("items", _S("none")))]),
+    (["/top[.=~/^zz/]/k", "/**/nowhere[.=1]"],
+     [],
+     [_M(("top", _M(("a", _I(1))))), _M(("k", _L(_I(1), _I(2))))]),
+]
+MULTIDOC_RHS = [_M(("b", _I(2))), _M(("a", _I(9)), ("n", _M(("m", _S("v"))))), _M(("k", _L(_I(1)))), _M()]
+
+
+def multidoc_case(rng):
+    """A yaml-merge run over a multi-document left file in one of the three multi-document modes, at a merge path that
+    (mostly) exactly one of the left documents cannot take: the first, a middle or the last one."""
+    paths, good, bad = rng.choice(MULTIDOC_SHAPES)
+    n = rng.randint(2, 4)
+    r = rng.random()
+    if not good:
+        badpos = list(range(n))
+    elif r < 0.12:
+        badpos = []
+    elif r < 0.9:
+        badpos = [rng.choice([0, n - 1, rng.randrange(n)])]
+    else:
+        badpos = rng.sample(range(n), 2)
+    docs = []
+    for i in range(n):
+        d = json.loads(json.dumps(rng.choice(bad if i in badpos else good)))
+        if rng.random() < 0.5:
+            d["e"].append(["doc", _I(i)])
+        docs.append(d)
+    mode = rng.choice(MULTIDOC_MODES)
+    nr = n if mode == "merge_across" and rng.random() < 0.85 else rng.choice([1, 1, 2])
+    rdocs = [json.loads(json.dumps(rng.choice(MULTIDOC_RHS))) for _ in range(nr)]
+    return {"ldocs": docs, "rdocs": rdocs, "path": rng.choice(paths), "mode": mode, "bad": sorted(badpos),
+            "hashes": rng.choice([None, None, "deep", "left", "right"])}
+
+
+def multidoc_expect(case):
+    """What the library's own Merger says about every constituent merge of the run: the i-th (left, right) pairs for
+    merge_across, every right document into every left document for matrix_merge, documents 2.. of the left file and
+    then every right document into the first one for condense_all (all at the merge path).
+    -> ("ok" | "refused" | None when a merge crashes or times out, the list of per-merge outcomes)"""
+    from yamlpath.merger import Merger
+    extra = {"mergeat": case["path"]}
+    if case.get("hashes"):
+        extra["hashes"] = case["hashes"]
+    mc = mg.make_config({}, "kw", extra_args=extra)
+    L = [Merger(mc.log, codec.json_to_ruamel(d), mc) for d in case["ldocs"]]
+    R = [codec.json_to_ruamel(d) for d in case["rdocs"]]
+    import copy
+    if case["mode"] == "condense_all":
+        pairs = [(L[0], m.data) for m in L[1:]] + [(L[0], r) for r in R]
+    elif case["mode"] == "merge_across":
+        pairs = [(L[i], R[i]) for i in range(min(len(L), len(R)))]
+    else:
+        pairs = [(lm, copy.deepcopy(r)) for lm in L for r in R]
+    outs, dead = [], set()
+    for lm, r in pairs:
+        if id(lm) in dead and case["mode"] != "condense_all":
+            continue            # the tool stops merging into a left document after its first failure
+        res = ed.guarded(lambda: lm.merge_with(r), 5.0)
+        outs.append(res[0])
+        if res[0] != "ok":
+            dead.add(id(lm))
+            if res[0] not in ("merge", "ypath"):
+                return None, outs
+    return ("refused" if any(o != "ok" for o in outs) else "ok"), outs
+
+
+def multidoc_cli_checks(chk, n):
+    """yaml-merge main() over multi-document left files: when the library refuses one of the merges the run is made of
+    (merge path matches nothing and cannot be created in that document), the tool must fail and write no output file -
+    whichever of the left documents it is; when every merge succeeds it must exit 0 and write the file."""
+    import yamlpath.commands.yaml_merge as ym
+    from yamlpath.common import Parsers
+    rng = random.Random(chk.seed * 31 + 11)
+    tmp = tempfile.mkdtemp(prefix="ypv-c11m-")
+    old_argv, old_out, old_err = sys.argv, sys.stdout, sys.stderr
+
+    def write(docs, path):
+        y = Parsers.get_yaml_editor()           # explicit_start: every document is written with its own `---`
+        with open(path, "w") as fh:
+            for d in docs:
+                y.dump(codec.json_to_ruamel(d), fh)
+    try:
+        if chk.replay_in:
+            cases = [n]
+        else:
+            cases = [multidoc_case(rng) for _ in range(n)]
+        for i, case in enumerate(cases):
+            want, outs = multidoc_expect(case)
+            if want is None:
+                chk.count("cli-multidoc:not-judged")
+                continue
+            lf, rf, of = [os.path.join(tmp, "%s%d.yaml" % (nm, i)) for nm in ("l", "r", "o")]
+            write(case["ldocs"], lf)
+            write(case["rdocs"], rf)
+            argv = ["yaml-merge", "-S", "--multi-doc-mode=" + case["mode"], "-m", case["path"], "-o", of]
+            if case.get("hashes"):
+                argv += ["--hashes", case["hashes"]]
+            argv += [lf, rf]
+
+            def go():
+                sys.argv = argv
+                sys.stdout, sys.stderr = io.StringIO(), io.StringIO()
+                try:
+                    ym.main()
+                except SystemExit as e:
+                    return e.code or 0
+                finally:
+                    sys.stdout, sys.stderr = old_out, old_err
+                return 0
+            res = ed.guarded(go, 10.0)
+            chk.evaluations += 1
+            exists = os.path.exists(of)
+            rec = dict(case, argv=argv[:-3] + ["<out>", "<left>", "<right>"], merges=outs)
+            where = ("first" if case["bad"][0] == 0 else "last" if case["bad"][0] == len(case["ldocs"]) - 1 else "middle") \
+                if len(case["bad"]) == 1 else "%d-bad" % len(case["bad"])
+            desc = "yaml-merge --multi-doc-mode=%s -m %s: left file of %d documents %s, right file %s; the library refuses a merge " \
+                   "of this run (%s)" % (case["mode"], case["path"], len(case["ldocs"]), [show(d) for d in case["ldocs"]],
+                                         [show(d) for d in case["rdocs"]], outs)
+            if res[0] != "ok":
+                chk.violation("cli-multidoc:%s@%s" % (res[0], res[1]), "%s raised %s" % (desc, res[0]), rec)
+            elif want == "refused":
+                chk.count("cli-multidoc:refused:%s:%s" % (case["mode"], where))
+                chk.nontrivial_extra += 1
+                if res[1] == 0:
+                    chk.violation("cli-multidoc:accepted:%s:%s" % (case["mode"], where),
+                                  "%s, yet the tool exits 0%s" % (desc, " and writes the output file" if exists else ""), rec)
+                elif exists:
+                    chk.violation("cli-multidoc:output-on-failure:%s" % case["mode"],
+                                  "%s; the tool exits %s and still wrote the output file" % (desc, res[1]), rec)
+            else:
+                chk.count("cli-multidoc:merged:%s" % case["mode"])
+                if res[1] != 0:
+                    chk.disagreements_checked += 1
+                    chk.disagreement("cli-multidoc:exit-differs:%s" % case["mode"],
+                                     "yaml-merge --multi-doc-mode=%s -m %s fails (exit %s) where every library merge of the run "
+                                     "succeeds: %s <- %s" % (case["mode"], case["path"], res[1], [show(d) for d in case["ldocs"]],
+                                                             [show(d) for d in case["rdocs"]]), rec)
+                elif not exists:
+                    chk.violation("cli-multidoc:no-output-on-success:%s" % case["mode"],
+                                  "yaml-merge --multi-doc-mode=%s -m %s exits 0 without writing the output file" % (
+                                      case["mode"], case["path"]), rec)
+            for f in (lf, rf, of):
+                if os.path.exists(f):
+                    os.remove(f)
+    finally:
+        sys.argv, sys.stdout, sys.stderr = old_argv, old_out, old_err
+        shutil.rmtree(tmp, ignore_errors=True)
+
 
 def widen(chk: core.Check):
     """Bigger failing-input search (x5 random budget on fresh seeds), used only when a proof obligation or the
@@ -1122,6 +1296,9 @@ def run(chk: core.Check):
     if chk.replay_in:
         rp = json.load(open(chk.replay_in))
         c = rp.get("case", rp)
+        if "ldocs" in c:
+            multidoc_cli_checks(chk, {k: c[k] for k in ("ldocs", "rdocs", "path", "mode", "bad", "hashes") if k in c})
+            return chk
         if "l" not in c:
             print("replay: nothing to run for", json.dumps(c)[:300])
             return chk
@@ -1180,6 +1357,9 @@ def run(chk: core.Check):
                 continue
             ccases.append(c)
         cli_checks(chk, ccases)
+        nmd = 600 if tier == "quick" else 6000
+        multidoc_cli_checks(chk, nmd)
+        chk.extra_cov["multi_document_cli_runs"] = nmd
     for stats, findings, samples, nontrivial, hist in results:
         chk.evaluations += stats["n"]
         chk.out_of_model += stats["oom"]
